@@ -51,11 +51,12 @@ type c12World struct {
 	heartbeat   bool
 	shortRetry  bool
 	writeTO     time.Duration
+	hbPeriod    time.Duration
 }
 
 func (w *c12World) describe() string {
 	var b strings.Builder
-	fmt.Fprintf(&b, "consumer=%s pauseAfter=%d closeAfter=%v closeOnParkedWriter=%v writers=%d heartbeat=%v shortReconnect=%v\n", w.consumer, w.pauseAfter, w.closeAfter, w.closeOnPark, w.writers, w.heartbeat, w.shortRetry)
+	fmt.Fprintf(&b, "consumer=%s pauseAfter=%d closeAfter=%v closeOnParkedWriter=%v writers=%d heartbeat=%v(period %v) shortReconnect=%v\n", w.consumer, w.pauseAfter, w.closeAfter, w.closeOnPark, w.writers, w.heartbeat, w.hbPeriod, w.shortRetry)
 	for i, e := range w.eps {
 		fmt.Fprintf(&b, " endpoint %d: %s peers=%d gate=%v refused=%v frames=%d peerDisconnects=%v openCompletesDuringClose=%v readFaultWithBlockedWriter=%v\n", i, e.kind, e.peers, e.gate, e.refused, e.frames, e.peerGoes, e.lateOpen, e.readFault)
 	}
@@ -101,12 +102,12 @@ func init() {
 
 func TestC12Close(t *testing.T) {
 	rec := evid.New(t, "C12", "generated node configurations (custom, TCP/UDP server with peers, TCP/UDP client against a live or refusing address, serial through the hook) with traffic, gated (blocked) transports, a consumer that is absent, running or paused, concurrent Write* callers and a generated close point (immediately, after a delay, once a writer is parked in the transport); Close must return within a bound far above normal (on a miss two goroutine dumps prove the deadlock), afterwards no goroutine started by the library is alive, every listening port can be bound again, accepted connections are closed, each custom transport was closed exactly once, Events() is closed, and racing/following Write* calls return; non-trivial = close while a goroutine is known to be blocked (parked writer, paused/absent consumer with pending events, client in back-off); distinct by hash of the scenario")
-	rec.Require("blocked-writer", "no-consumer", "paused-consumer", "client-backoff", "open-completes-during-close", "reader-failed-while-writer-blocked", "racing-writers", "tcps", "udps", "tcpc", "udpc", "serial", "custom")
+	rec.Require("blocked-writer", "no-consumer", "paused-consumer", "client-backoff", "open-completes-during-close", "reader-failed-while-writer-blocked", "racing-writers", "tcps", "udps", "tcpc", "udpc", "serial", "custom", "bcast")
 	evid.Check(t, rec, evid.N(250, 700), func(t *rapid.T) {
 		w := &c12World{}
 		ne := rapid.IntRange(1, 4).Draw(t, "neps")
 		for i := 0; i < ne; i++ {
-			e := &epSpec{kind: rapid.SampledFrom([]string{"custom", "custom", "tcps", "udps", "tcpc", "udpc", "serial"}).Draw(t, "kind")}
+			e := &epSpec{kind: rapid.SampledFrom([]string{"custom", "custom", "tcps", "udps", "tcpc", "udpc", "serial", "bcast"}).Draw(t, "kind")}
 			e.peers = rapid.IntRange(0, 2).Draw(t, "peers")
 			e.gate = rapid.IntRange(0, 2).Draw(t, "gate") == 0
 			e.refused = rapid.Bool().Draw(t, "refused")
@@ -122,6 +123,8 @@ func TestC12Close(t *testing.T) {
 		w.closeOnPark = rapid.Bool().Draw(t, "close_on_park")
 		w.writers = rapid.IntRange(0, 3).Draw(t, "writers")
 		w.heartbeat = rapid.Bool().Draw(t, "heartbeat")
+		// from "a tick is almost always being handed over" to "rare ticks"
+		w.hbPeriod = time.Duration(rapid.SampledFrom([]int{1, 5, 20, 100, 500, 2000}).Draw(t, "hb_period_us")) * time.Microsecond
 		w.shortRetry = rapid.IntRange(0, 3).Draw(t, "short_retry") > 0
 		blocked, err := runC12(w)
 		if n := atomic.SwapInt64(&excludedUDPClose, 0); n > 0 {
@@ -240,6 +243,9 @@ func runC12(w *c12World) ([]string, error) {
 		case "udpc":
 			e.port = sim.FreePort()
 			endpoints = append(endpoints, gomavlib.EndpointUDPClient{Address: sim.Addr(e.port)})
+		case "bcast":
+			e.port = sim.FreePort()
+			endpoints = append(endpoints, gomavlib.EndpointUDPBroadcast{BroadcastAddress: fmt.Sprintf("127.255.255.255:%d", sim.FreePort()), LocalAddress: sim.Addr(e.port)})
 		case "serial":
 			e.openGate = make(chan struct{})
 			dev := fmt.Sprintf("/dev/ttyVERIF%d", i)
@@ -248,7 +254,7 @@ func runC12(w *c12World) ([]string, error) {
 		}
 	}
 	n := &gomavlib.Node{Endpoints: endpoints, Dialect: ardupilotmega.Dialect, OutVersion: gomavlib.V2, OutSystemID: 7,
-		HeartbeatDisable: !w.heartbeat, HeartbeatPeriod: 2 * time.Millisecond, WriteTimeout: 300 * time.Millisecond,
+		HeartbeatDisable: !w.heartbeat, HeartbeatPeriod: w.hbPeriod, WriteTimeout: 300 * time.Millisecond,
 		StreamRequestEnable: true}
 	if err := n.Initialize(); err != nil {
 		return nil, fmt.Errorf("BROKEN: node init: %v", err)
@@ -466,7 +472,7 @@ func runC12(w *c12World) ([]string, error) {
 			if c := e.pipe.CloseCount(); c != 1 {
 				return blocked, fmt.Errorf("endpoint %d: custom transport closed %d times, want exactly once", i, c)
 			}
-		case "tcps", "udps":
+		case "tcps", "udps", "bcast":
 			ok := false
 			for k := 0; k < 400 && !ok; k++ {
 				ok = sim.CanBind(e.port)
@@ -510,7 +516,7 @@ func runC12(w *c12World) ([]string, error) {
 // TestC12InitFailure: a node whose initialization fails leaves no listener or goroutine behind.
 func TestC12InitFailure(t *testing.T) {
 	rec := evid.New(t, "C12", "endpoint lists whose j-th element cannot be initialized (TCP/UDP port already bound, malformed address, serial device that does not open) after 0..3 good endpoints: Initialize must fail, no library goroutine may remain, every port of the earlier endpoints must be bindable again, earlier custom transports closed at most once; non-trivial = at least one good endpoint before the failing one; distinct by hash of the endpoint list")
-	rec.Require("fail-after-good", "busy-tcp", "busy-udp", "bad-address", "serial-missing")
+	rec.Require("fail-after-good", "busy-tcp", "busy-udp", "bad-address", "serial-missing", "odd-broadcast-port")
 	evid.Check(t, rec, evid.N(300, 1000), func(t *rapid.T) {
 		ngood := rapid.IntRange(0, 3).Draw(t, "ngood")
 		var endpoints []gomavlib.EndpointConf
@@ -539,9 +545,10 @@ func TestC12InitFailure(t *testing.T) {
 				endpoints = append(endpoints, gomavlib.EndpointUDPClient{Address: sim.Addr(sim.FreePort())})
 			}
 		}
-		bad := rapid.SampledFrom([]string{"busy-tcp", "busy-udp", "bad-address", "bad-address-client", "serial-missing", "bad-broadcast"}).Draw(t, "bad")
+		bad := rapid.SampledFrom([]string{"busy-tcp", "busy-udp", "bad-address", "bad-address-client", "serial-missing", "bad-broadcast", "odd-broadcast-port"}).Draw(t, "bad")
 		desc = append(desc, "FAIL:"+bad)
 		var release func()
+		oddPort := 0
 		switch bad {
 		case "busy-tcp":
 			port := sim.FreePort()
@@ -567,15 +574,31 @@ func TestC12InitFailure(t *testing.T) {
 			endpoints = append(endpoints, gomavlib.EndpointSerial{Device: "/dev/ttyDOESNOTEXIST", Baud: 57600})
 		case "bad-broadcast":
 			endpoints = append(endpoints, gomavlib.EndpointUDPBroadcast{BroadcastAddress: "256.1.1.1:5600"})
+		case "odd-broadcast-port":
+			// a local address that binds fine plus a questionable broadcast port: whether this is accepted or
+			// refused, the local port must be free again afterwards
+			oddPort = sim.FreePort()
+			bp := rapid.SampledFrom([]string{"abc", "0", "65536", "-1", "99999"}).Draw(t, "bport")
+			endpoints = append(endpoints, gomavlib.EndpointUDPBroadcast{BroadcastAddress: "127.255.255.255:" + bp, LocalAddress: sim.Addr(oddPort)})
 		}
 		n := &gomavlib.Node{Endpoints: endpoints, Dialect: common.Dialect, OutVersion: gomavlib.V2, OutSystemID: 7}
 		err := n.Initialize()
 		if release != nil {
 			release()
 		}
-		if err == nil {
+		if err == nil && oddPort != 0 {
+			// accepted: then Close has to release everything
+			if _, cerr := closeNode(n, bound); cerr != nil {
+				t.Fatalf("%v: %v", desc, cerr)
+			}
+			for range n.Events() {
+			}
+		} else if err == nil {
 			closeNode(n, bound) //nolint:errcheck
 			t.Fatalf("%v: Initialize succeeded although the last endpoint cannot be initialized", desc)
+		}
+		if oddPort != 0 {
+			ports = append(ports, oddPort)
 		}
 		if left := sim.WaitNoLibGoroutines(3 * time.Second); len(left) > 0 {
 			t.Fatalf("%v: Initialize failed (%v) but %d library goroutine(s) remain:\n%s", desc, err, len(left), strings.Join(left, "\n\n"))
@@ -591,6 +614,9 @@ func TestC12InitFailure(t *testing.T) {
 			if !ok {
 				t.Fatalf("%v: Initialize failed (%v) but port %d of an earlier endpoint stays bound", desc, err, port)
 			}
+		}
+		if err == nil {
+			err = fmt.Errorf("(accepted)")
 		}
 		for _, p := range pipes {
 			if p.CloseCount() > 1 {
